@@ -237,9 +237,17 @@ class EncodeDecode(Family):
         judge(hrp, want.upper(), what='upper case')
         if hrp in HRP_CHAIN and ver <= 16:
             bitcoin.SelectParams(HRP_CHAIN[hrp])
-            s = str(B.CBech32Data.from_bytes(ver, prog))
+            o = B.CBech32Data.from_bytes(ver, prog)
+            s = str(o)
             if s != want:
                 raise Viol('str(CBech32Data.from_bytes(%d, %s)) on %s' % (ver, prog.hex(), HRP_CHAIN[hrp]), want, s)
+            # the same object printed again after another chain was selected, and after switching back: the text is always the
+            # encoding under the prefix selected at the time of printing
+            for hrp2 in [h for h in ('tb', 'bc', 'bcrt') if h != hrp][:2] + [hrp]:
+                bitcoin.SelectParams(HRP_CHAIN[hrp2])
+                w2 = R.encode(hrp2, ver, prog)
+                if str(o) != w2:
+                    raise Viol('str() of an address object created under %s and printed (again) with %s selected' % (HRP_CHAIN[hrp], HRP_CHAIN[hrp2]), w2, str(o))
         return 'ok', True
 
 
